@@ -101,7 +101,10 @@ def install(only=None):
     """Shadow the module globals (idempotent)."""
     global _orig_default
     use_repo()
-    logging.disable(logging.CRITICAL)
+    # logging stays as an application leaves it by default: records of level WARNING and above are created and
+    # formatted by repid's adapter (its logger only has a NullHandler, so nothing is printed); a harness may turn
+    # debug logging on (C17).  Disabling logging altogether would hide defects inside error-level log calls.
+    logging.getLogger("repid").setLevel(logging.NOTSET)
     for modname, names in PATCHES.items():
         if only is not None and modname not in only:
             continue
